@@ -163,11 +163,12 @@ def run(tier="quick", seed=0):
             ("MachineController", "load_application"): ((aplx, {(1, 1): {1, 2}}), {"app_start_delay": 0.0, "n_tries": 1}),
         }
 
-        def new_controller(cls, empty=False):
+        def new_controller(cls, empty=False, init=None):
+            extra = {"initial_context": {}} if empty else {"initial_context": init} if init is not None else {}
             if cls is MachineController:
-                c = MachineController("initial", structs=structs, **({"initial_context": {}} if empty else {}))
+                c = MachineController("initial", structs=structs, **extra)
             else:
-                c = BMPController(dict(BMP_HOSTS), **({"initial_context": {}} if empty else {}))
+                c = BMPController(dict(BMP_HOSTS), **extra)
             c._scp_data_length = 256      # as if the buffer size had been queried already
             return c
 
@@ -221,16 +222,18 @@ def run(tier="quick", seed=0):
             return BMP_HOSTS.get((c, f, b), BMP_HOSTS.get((c, f)))
 
         # ---- layer M: every method x every way of passing each contextual argument --------------------
-        def method_case(m, ways, blocks, zero_explicit=False, list_state=False):
+        def method_case(m, ways, blocks, zero_explicit=False, list_state=False, init=None):
             """ways: {contextual param: 'pos'|'kw'|'ctx'|'dflt'}; blocks: list of dicts (outermost first) entered around the call;
-            zero_explicit: explicitly passed contextual values are 0; list_state: a `state` argument is a list of states"""
+            zero_explicit: explicitly passed contextual values are 0; list_state: a `state` argument is a list of states;
+            init: the initial_context the controller is constructed with (None: the constructor's default)"""
             nonlocal ev
             cls, name, f, names, table, kwonly, star, d, ctxnames = m
             if list_state and "state" in d:
                 d = dict(d, state=["run", "idle"])
             ev += 1
             layers["M"] = layers.get("M", 0) + 1
-            ctl = new_controller(cls)
+            given_init = None if init is None else dict(init)
+            ctl = new_controller(cls, init=given_init)
             # what the call is given
             explicit = dict((n, 0 if zero_explicit else val(n, 0)) for n, w in ways.items() if w in ("pos", "kw"))
             pos_upto = max([names.index(n) for n, w in ways.items() if w == "pos"] + [-1])
@@ -258,7 +261,7 @@ def run(tier="quick", seed=0):
                 if ways.get(n) == "kw":
                     kwargs[n] = explicit[n]
             # the oracle's resolution: explicit, else innermost block, else initial context, else declared default
-            stack = [initial_context(cls)] + blocks
+            stack = [initial_context(cls) if init is None else dict(init)] + blocks
             resolved, missing = {}, []
             for n in list(names) + list(kwonly):
                 if n in explicit:
@@ -285,8 +288,9 @@ def run(tier="quick", seed=0):
                 return nest(0)
             out, got = outcome_of(call)
             inputs = {"method": "%s.%s" % (cls.__name__, name), "ways": ways, "positional": repr(posargs), "keywords": repr(kwargs),
-                      "blocks_outermost_first": blocks, "initial_context": initial_context(cls)}
-            key = (cls.__name__, name, tuple(sorted(ways.items())))
+                      "blocks_outermost_first": blocks, "initial_context": initial_context(cls) if init is None else dict(init),
+                      "initial_context_passed_to_constructor": init is not None}
+            key = (cls.__name__, name, tuple(sorted(ways.items()))) + (() if init is None else (tuple(sorted(init)),))
             distinct.add(key)
             if missing:
                 if out != "TypeError" or got:
@@ -394,6 +398,13 @@ def run(tier="quick", seed=0):
                         if ways[n] == "ctx" and not any(n in b for b in blocks):
                             eff[n] = "dflt"
                     method_case(m, eff, blocks, zero_explicit=(rep % 4 == 3), list_state=(rep % 2 == 0))
+                    # the same call on a controller constructed with an initial context of the caller's own (empty, or naming
+                    # only some of the arguments): what it leaves out comes from the declared default or is missing
+                    if rep < (8 if thorough else 2):
+                        inits = (({}, {"x": 13}, {"app_id": 31, "y": 43}, {"x": 13, "y": 43, "p": 4}) if cls is MachineController else
+                                 ({}, {"cabinet": 1, "frame": 2}, {"board": 7}, {"cabinet": 1}))
+                        method_case(m, eff, blocks, zero_explicit=(rep % 4 == 3), list_state=(rep % 2 == 0),
+                                    init=inits[(rep + len(combos) + len(name)) % 4])
 
         # ---- layer N: every nesting of <= 3 blocks, every exit path -------------------------------------
         subsets = [dict((n, None) for n in c) for k in range(5) for c in itertools.combinations(MC_CTX, k)]
@@ -703,6 +714,101 @@ def run(tier="quick", seed=0):
         if [r[1] for r in trace] != ["initial"]:
             note("G", "connection_of_target_board", "machine dimensions unknown but %r used" % ([r[1] for r in trace],), {"width": None})
 
+        # ---- layer H: connections discovered by the real discover_connections() on a simulated machine -----------
+        # (bounded/_scamp.py answers the P2P-table, IP-address and version probes; every connection the code creates is a
+        #  named forwarding connection, so which socket a command went over is observable; expected board: own hexagon model)
+        from bounded import _scamp
+
+        class Named(_scamp.Connection):
+            def __init__(self, host, port=17893, n_tries=5, timeout=0.5):
+                _scamp.Connection.__init__(self, None)
+                self.host = host
+
+            def send_scp(self, buffer_size, x, y, p, cmd, *a, **k):
+                trace.append(("scp", self.host, x, y, p, int(cmd)))
+                return _scamp.Connection.send_scp(self, buffer_size, x, y, p, cmd, *a, **k)
+
+            def read(self, buffer_size, window_size, x, y, p, address, length_bytes):
+                trace.append(("read", self.host, x, y, p, address))
+                return _scamp.Connection.read(self, buffer_size, window_size, x, y, p, address, length_bytes)
+
+            def write(self, buffer_size, window_size, x, y, p, address, data):
+                trace.append(("write", self.host, x, y, p, address))
+                return _scamp.Connection.write(self, buffer_size, window_size, x, y, p, address, data)
+
+        def ip_of(e):
+            return "10.%d.%d.1" % e
+
+        def discovered_case(w, h, up, rounds, method):
+            """machine rooted at (0, 0); `up`: the Ethernet chips whose link is up (they get a connection)"""
+            nonlocal ev
+            tiles = board_of_chip(w, h, (0, 0))
+            eths = sorted(set(tiles.values()))
+            mcm.SCPConnection = Named
+            ctl = MachineController("initial")
+            model = _scamp.Scamp(ctl.structs, w, h, root=(0, 0))
+            for e in eths:
+                c = model.chips[e]
+                c.eth_up = e in up
+                c.ip = sum(int(b) << (8 * i) for i, b in enumerate(ip_of(e).split(".")))
+            for xy, c in model.chips.items():
+                c.eth_chip = tiles[xy]
+            model.boot(render_router=False)
+            made = []
+
+            def make(host, *a, **k):
+                conn = Named(host)
+                conn.model = model
+                made.append(host)
+                return conn
+            ctl.connections[None].model = model
+            mcm.SCPConnection = make
+            inputs = {"width": w, "height": h, "root_chip": [0, 0], "ethernet_up": sorted(up), "discover_calls": rounds, "method": method}
+            try:
+                for _ in range(rounds):
+                    ctl.discover_connections()
+            except Exception as e:      # noqa
+                note("H", "connection_of_target_board", "discover_connections raised %s: %s" % (type(e).__name__, e), inputs)
+                return
+            finally:
+                mcm.SCPConnection = Rec
+            if sorted(k for k in ctl.connections if k is not None) != sorted(up):
+                note("H", "connection_of_target_board", "%dx%d machine, Ethernet up on %r: connections discovered for %r" % (
+                    w, h, sorted(up), sorted(k for k in ctl.connections if k is not None)), inputs)
+                return
+            for (x, y) in sorted(tiles):
+                ev += 1
+                layers["H"] = layers.get("H", 0) + 1
+                del trace[:]
+                try:
+                    if method == "send_scp":
+                        ctl.send_scp(int(consts.SCPCommands.sver), x=x, y=y, p=0)
+                    elif method == "read":
+                        with ctl(x=x, y=y):
+                            ctl.read(0x60000000, 4)
+                    else:
+                        ctl.get_software_version(x, y, 0)
+                    out = "ok"
+                except Exception as e:      # noqa
+                    out = "%s: %s" % (type(e).__name__, e)
+                e = tiles[(x, y)]
+                want = ip_of(e) if e in up else "initial"
+                used = sorted(set(r[1] for r in trace))
+                if out != "ok" or used != [want] or any((r[2], r[3]) != (x, y) for r in trace):
+                    note("H", "connection_of_target_board", "%dx%d machine, Ethernet up on %r, after %d call(s) of discover_connections(): %s for chip (%d,%d) went over %r (outcome %s); the chip is on the board of Ethernet chip %r, expected %r" % (
+                        w, h, sorted(up), rounds, method, x, y, used, out, e, want), dict(inputs, chip=[x, y]))
+            distinct.add(("H", w, h, tuple(sorted(up)), rounds, method))
+
+        hmethods = ("send_scp", "read", "get_software_version")
+        hi = 0
+        for (w, h) in ((12, 12), (24, 12), (12, 24)) + (((24, 24),) if thorough else ()):
+            eths = sorted(set(board_of_chip(w, h, (0, 0)).values()))
+            for up in (set(eths), set(eths[1:]), set(eths[::2]), set(eths[:1])):
+                for rounds in (1, 2):
+                    hi += 1
+                    for hm in (hmethods if thorough else (hmethods[hi % 3],)):
+                        discovered_case(w, h, up, rounds, hm)
+
         if affected:
             samples.insert(0, {"methods_whose_inner_calls_take_p_from_the_enclosing_block": sorted(affected)})
         samples.insert(0, {"decorated_methods_driven (outcome against the fixed replies, datagrams recorded)": driven, "skipped": skipped})
@@ -718,13 +824,13 @@ def run(tier="quick", seed=0):
     return {"name": "c18_context", "evaluations": ev, "distinct_nontrivial": len(distinct),
             "rule": ("layers %r. M: every decorated method of MachineController and BMPController found by introspection (%d driven, %d skipped) x every way of passing each of its "
                      "contextual arguments (positional where the prefix rule allows / keyword / from a block / left to the default) x 4 (thorough 48) drawn nestings of 0..3 blocks with shadowed "
-                     "values (the value 0 as the resolving block's / the explicit value every other / fourth time; lists of states for `state` arguments every other time), decoys an explicit value must beat and arguments the method does not take; oracle = own resolution + datagrams of the undecorated function given the resolved values on a context-free controller + destination fields. "
+                     "values (the value 0 as the resolving block's / the explicit value every other / fourth time; lists of states for `state` arguments every other time), decoys an explicit value must beat and arguments the method does not take, on a controller constructed with the default initial context and (2 of the 4 drawn nestings, thorough 8 of 48) with an initial context of the caller's own: empty, or naming only some of the contextual arguments; oracle = own resolution + datagrams of the undecorated function given the resolved values on a context-free controller + destination fields. "
                      "N: every nesting of <= 3 blocks over the 16 subsets of {x,y,p,app_id} or an application block x left normally / by an exception raised in the body of any "
                      "level (after deeper blocks were left normally) and caught around any level above it (probe commands at depth 3: %s); get_context_arguments and a probe command (send_scp / sdram_alloc / write in rotation) inside every block, after every "
                      "inner exit and after every catch. S: nestings of application blocks (id positional / keyword / from context) mixed with argument blocks, every exit path: wire "
                      "log == stop signals, inner first. Q: three context objects (two argument blocks, one application block) created UP FRONT, then every well-nested enter/leave "
                      "program with <= 3 blocks over them (siblings, re-entry, nesting) x every subset (quick: every ninth for 3 blocks) of the points in between at which the context in force is probed; stop signal exactly when the application block is left. G: 12x12, 24x12, 12x24, 36x12, 24x24 SpiNN-5 machines x root chips (0,0),(8,4),(4,8),(1,2) x all / every second / no "
-                     "connection known, every chip, five methods (quick: one of them in rotation), expected board from an own hexagon model. "
+                     "connection known, every chip, five methods (quick: one of them in rotation), expected board from an own hexagon model. H: the same question after the REAL discover_connections() (once / twice) on a simulated 12x12, 24x12, 12x24 (thorough 24x24) machine (bounded/_scamp.py answers the probes) whose Ethernet links are up on all / all but the first / every second / only the first board: the connections created are exactly those of the boards that are up and every chip's command goes over its own board's. "
                      "distinct = (method, ways) / (nesting, exit path) / (machine, root, known set, method)" % (layers, len(methods), len(skipped), "all three" if thorough else "one of three in rotation")),
             "bound": "<= 3 nested blocks, 4 ways of passing, machines up to 24x24 / 36x12, fixed dummy arguments and fixed replies from the recording connection",
             "exhaustive": False, "label": "bounded", "samples": samples[:8], "violations": viol[:6], "seconds": round(time.time() - t0, 2)}
